@@ -21,18 +21,18 @@ META = {
             "(three-way with std::vector; int, counting, SwissString, nested and std::basic_string elements) and "
             "the real SwissManager on repeated workloads with space_used/space_allocated monitors.",
     "note": "Trusted: Coq kernel, translator, ExtrOcamlBasic extraction + OCaml driver, C++ harness.  Abstracted: "
-            "element values are integers; what a move leaves in its source is a parameter (never observable except "
-            "for a self-move); strings are std::basic_string over the monotonic allocator and only their "
-            "reuse/metadata behaviour is monitored (SwissString vs std::string differential), protobuf messages are "
-            "not modelled.  Precondition: arguments do not alias the vector's own elements.  The refinement theorem "
-            "excludes zero-length insert when the element's self-move-assignment is not the identity: "
-            "insert(pos, 0, v) / insert(pos, first, first) self-move-assigns every constructed element from pos on, "
-            "which empties std::basic_string elements (c12_zero_insert_refuted, replayed on the real code: finding "
-            "zero-insert-selfmove).  A manager rebuild sizes the vector by constructed_size, so capacity reserved "
-            "beyond the constructed elements is not kept across a rebuild (c12_manager_cycle states capacity >= "
-            "constructed, not >= old capacity).  Protobuf messages are checked by monitors only (managed ArenaExample vs "
-            "heap message); finding recreate-marks-submessage-present: a message rebuilt by the manager has its used "
-            "singular sub-message fields marked present (has_m() true), i.e. is not equal to a fresh message.",
+            "element values are integers; what a move leaves in its source is a parameter (mva / mvc / smv, all theorems "
+            "hold for every choice, including a destructive self-move); strings are std::basic_string over the monotonic "
+            "allocator and only their reuse/metadata behaviour is monitored (SwissString vs std::string differential); "
+            "protobuf messages are not modelled, a managed ArenaExample is monitored against a heap message (equal "
+            "contents; after every manager.clear(), rebuild included, equal to a fresh message: has-bits, ByteSizeLong, "
+            "serialisation).  Precondition: arguments do not alias the vector's own elements.  History: insert of zero "
+            "elements used to self-move-assign every constructed element from the position on (fixed in 5fb90d9 by an "
+            "early return, now regenerated as pfi_zero_cond / pfi_zero_ret and required by the proofs) and a message "
+            "rebuilt by the manager kept the has-bit of used sub-messages (fixed in 6344245); both are ordinary monitors "
+            "now, a recurrence is a VIOLATION.  A manager rebuild sizes the vector by constructed_size, so capacity "
+            "reserved beyond the constructed elements is not kept across a rebuild (c12_manager_cycle states capacity >= "
+            "constructed, not >= old capacity).",
 }
 
 TYPES_V = ["i", "c", "s", "n", "b"]
@@ -209,10 +209,10 @@ def main(argv):
             for t, toks in boundary_cases(ty, 5 if thorough else 4, True):
                 lines.append(("v%d" % n, t, "V", "V %s %s" % (t, " ".join(toks))))
                 n += 1
-        for t, toks in boundary_cases("b", 4 if thorough else 3, False):
+        for t, toks in boundary_cases("b", 4 if thorough else 3, True):
             lines.append(("v%d" % n, t, "V", "V %s %s" % (t, " ".join(toks))))
             n += 1
-        # the std::basic_string element type with zero-length inserts (known finding zero-insert-selfmove)
+        # element type whose self-move-assignment is destructive: zero-length inserts must not touch anything
         for toks in (["a.asr.1,2,3", "a.insn.1.0.9", "a.pb.4"], ["a.asr.1,2,3", "a.insr.0.", "a.pb.4"],
                      ["a.asr.1,2,3,4", "a.er.2.4", "a.insn.2.0.9", "a.rs.4"]):
             lines.append(("v%d" % n, "b", "V", "V b " + " ".join(toks)))
@@ -221,7 +221,7 @@ def main(argv):
         for ty in TYPES_V:
             for _ in range(2500 if thorough else 260):
                 g = Gen(chk.rng, 6 + chk.rng.below(8))
-                toks = [g.op2(allow_zero=(ty != "b")) for _ in range(6 + chk.rng.below(30))]
+                toks = [g.op2() for _ in range(6 + chk.rng.below(30))]
                 lines.append(("v%d" % n, ty, "V", "V %s %s" % (ty, " ".join(toks))))
                 n += 1
         # 3. manager cycles: every clear / recreate cadence around the interval
@@ -282,12 +282,8 @@ def main(argv):
             elif il is not None:
                 mon = dict(kv.split("=") for kv in il.split(" | ")[1].split())
                 if mon.get("fresh") != "1":
-                    if mon.get("fresh_leaves") == "1":
-                        chk.violate("recreate-marks-submessage-present", "after the manager re-created a protobuf message its "
-                                    "singular sub-message field is present (has_m() == true, serialises to 2 bytes) instead of "
-                                    "equal to a fresh message: " + t, rep)
-                    else:
-                        chk.violate("message-clear-not-fresh", "managed protobuf message not empty after manager.clear(): " + t, rep)
+                    chk.violate("message-clear-not-fresh", "after manager.clear() (logical clear or rebuild) the managed protobuf "
+                                "message is not equal to a fresh one (has-bits / ByteSizeLong / serialisation): " + t, rep)
                 for key, sig, what in [("same", "message-differs-from-heap", "arena message differs from a heap message driven by the same setters"),
                                        ("acc_ok", "accessor-invalid", "accessor does not point into the manager's resource after clear"),
                                        ("on_arena", "message-not-on-arena", "managed message is not on the manager's arena"),
@@ -307,15 +303,12 @@ def main(argv):
                 toks = t.split()[2:] if mode == "V" else t.split()[4:]
                 fb = int(mon.get("first_bad", "-1"))
                 tok = toks[fb] if 0 <= fb < len(toks) else "?"
-                zero = re.search(r"insn\.\d+\.0\.|insr\.\d+\.$", tok) is not None
                 if mode == "S":
                     chk.violate("string-differs-from-std", "managed SwissString differs from std::string: " + t, rep)
-                elif zero:
-                    chk.violate("zero-insert-selfmove", "inserting zero elements (%s) changed the contents of a vector of %s "
-                                "elements: %s" % (tok, {"b": "std::basic_string"}.get(ty, ty), t), rep)
                 else:
-                    chk.violate("contents-differ-from-std", "contents differ from std::vector after op #%d (%s) of: %s"
-                                % (fb, tok, t), rep)
+                    chk.violate("contents-differ-from-std", "contents of a vector of %s elements differ from std::vector after "
+                                "op #%d (%s) of: %s" % ({"b": "std::basic_string", "i": "int", "c": "counting", "s": "SwissString",
+                                                         "n": "nested vector"}.get(ty, ty), fb, tok, t), rep)
             for key, sig, what in (SIGS_V if mode == "V" else SIGS_M if mode == "M" else SIGS_M[:3] + SIGS_M[4:6]):
                 if key in mon and mon[key] != "1":
                     chk.violate(sig, "%s: %s" % (what, t), rep)
@@ -359,6 +352,6 @@ def main(argv):
     ]
     chk.assumptions = ["operation preconditions of std::vector (positions within [0,size], pop on non-empty)",
                        "arguments do not alias elements of the vector operated on",
-                       "zero-length insert excluded for element types whose self-move-assignment is not the identity"]
+                       ]
     chk.notes["note"] = META["note"]
     chk.finish("proof")
